@@ -426,7 +426,7 @@ def kDR : Kind where
   zero _ := ()
   compat _ _ := true
   init _ src := Rd.newDefault src
-  step _ s o := ((s.step o).2, (s.step o).1, if o = .release then [s.buf] else [])
+  step _ s o := ((s.step o).2, (s.step o).1, match o with | .release _ => [s.buf] | _ => [])
   release _ := ((), [])
 
 /-- bufiox.DefaultWriter over a recording sink -/
